@@ -1,5 +1,6 @@
 /- One line per stream handler. -/
 import Comet.Driver.Flat
+import Comet.Driver.PQ
 import Comet.Driver.Meta
 import Comet.Driver.HNSW
 import Comet.Driver.Dist
@@ -11,6 +12,7 @@ import Comet.Driver.Conc
 namespace Comet.Driver
 
 def handlers : List Handler := [
+  PQStream.handler,
   MetaStream.handler,
   ConcStream.handler,
   SchedStream.handler,
